@@ -151,6 +151,29 @@ func jobC09(c *rt.Ctx) {
 				}
 				// (chunk lengths of every residue mod 4, the entry in the last slots: work split over a fixed
 				// number of workers leaves the remainder to one of them)
+				// one Options value used first in ZIP-215 mode, then - the same value, and a by-value copy of
+				// it - with the flag cleared: the second and third call are default mode
+				func() {
+					defer func() {
+						if r := recover(); r != nil {
+							c.Violation("C09 e2e options-object reuse panic", fmt.Sprintf("VerifyWithOptions panicked on a reused Options value: %v", r), nil)
+						}
+					}()
+					o := vs.opts(true)
+					first := VerifyWithOptions(t.key, t.msg, t.sig, o)
+					o.ZIP215Verify = false
+					second := VerifyWithOptions(t.key, t.msg, t.sig, o)
+					o.ZIP215Verify = true
+					cp := *o
+					cp.ZIP215Verify = false
+					third := VerifyWithOptions(t.key, t.msg, t.sig, &cp)
+					c.Step(3)
+					if !first || second || third {
+						d := hexd(t)
+						d["variant"], d["zip215_first"], d["default_same_value"], d["default_copy"] = vs.String(), first, second, third
+						c.Violation(fmt.Sprintf("C09 e2e %s options-object reuse", name), fmt.Sprintf("%s (%s): one Options value used with ZIP215Verify = true, then false, then a copy with false: %v %v %v (want true false false)", name, tr.name, first, second, third), d)
+					}
+				}()
 				for _, sh := range []batchShape{{0, 4}, {3, 4}, {4, 5}, {5, 6}, {4, 6}, {6, 7}, {10, 11}, {62, 63}, {63, 65}, {64, 65}, {67, 68}, {69, 70}, {66, 71}, {64, 132}, {130, 132}, {133, 134}} {
 					_, valid, err, bpv := implBatch(batchWith(t, sh.pos, sh.n, vs), vs, false, rt.NewRng(c.Seed, "c09b"))
 					c.Step(1)
